@@ -18,6 +18,12 @@ import vlib
 import femfile
 import translate_schema
 from props import c14_gen
+from props import ext, xsol
+
+# the [Solution] part of .ans / .res / .anh files (solver writers vs. post-processor and previous-solution readers):
+# translator tools/translate_solution.py -> gen/SolSchemas.v, model SolFile.v, theorems Properties_C14_solution.v (props/xsol.py)
+EXTENSIONS = ["xsol"]
+EXTRA_PROPERTY_FILES = ["C14_solution"]
 
 LEVEL = "proof"
 COQ_MODULES = ["Schema", "gen/Schemas"]
@@ -55,6 +61,7 @@ def regen(ctx):
     vlib.write_if_changed(os.path.join(vlib.COQDIR, "theories", "gen", "Schemas.v"), txt)
     SCHEMAS.clear()
     SCHEMAS.update(sch)
+    xsol.regen(ctx)
 
 
 # ------------------------------------------------------------------- running the real code ----
@@ -637,6 +644,7 @@ def correspond(ctx):
     cov["schemas"] = {n: dict(parse_keys=[e["key"] for e in v[0]], print_keys=[e["key"] for e in v[1]])
                       for n, v in SCHEMAS.items() if not n.startswith("_") and not n.startswith("Solver")}
     cov["signatures_found"] = sorted(found)
+    dis += ext.run(ctx, EXTENSIONS)
     return dis
 
 
@@ -651,4 +659,5 @@ def search(ctx, broken):
         small = shrink_text(ctx, kind, text, sig)
         out.append(dict(what="load+save through femmcli changes the meaning of a .%s file: %s (%s)" % (kind, sig, det),
                         signature=sig, file_type=kind, minimal_file=small.replace("\r", "").split("\n")[:120]))
+    out += ext.search(ctx, EXTENSIONS, broken)
     return out
